@@ -319,8 +319,15 @@ theorem probe_safe {pr : Probe} {dest : Path} (h1 : pr.src ≠ dest) (h2 : pr.ds
     ∀ e ∈ probeOps pr, e.safeFor dest = true := by
   intro e he
   simp only [probeOps] at he
-  cases hsame : pr.same <;> simp [hsame] at he <;>
+  cases ho : pr.outcome <;> simp [ho] at he
+  all_goals
     rcases he with he | he | he | he | he | he <;> subst he <;> simp [Sys.safeFor, h1, h2]
+
+theorem startFail_safe {pr : Probe} {dest : Path} (h1 : pr.src ≠ dest) :
+    ∀ e ∈ startFail pr, e.safeFor dest = true := by
+  intro e he
+  simp only [startFail, List.mem_cons, List.not_mem_nil, or_false] at he
+  rcases he with he | he | he <;> subst he <;> simp [Sys.safeFor, h1]
 
 theorem writes_safe (dest : Path) (fd : Nat) (chunks : List Content) :
     ∀ e ∈ chunks.map (Sys.write fd), e.safeFor dest = true := by
@@ -567,14 +574,21 @@ theorem save_prefix {s₀ : FS} {dest : Path} {old : Option Content} (sv : Save)
       (Settled (runAbort s₀ ((sv.prog dest).take k)).1 dest old ∨
         Settled (runAbort s₀ ((sv.prog dest).take k)).1 dest (some sv.new)) := by
   unfold Save.prog Save.new
-  cases hc : sv.commit with
-  | true =>
-    simp only [if_true]
-    exact atomic_prefix (chunks := sv.chunks) (fd := sv.fd) hwf h0 hn k
+  cases hs : sv.started with
   | false =>
-    simp only [Bool.false_eq_true, if_false]
-    have := abort_prefix (chunks := sv.chunks) (fd := sv.fd) hwf h0 hn k
-    exact ⟨this.1, Or.inl this.2⟩
+    simp only [Bool.not_false, if_true]
+    exact ⟨runAbort_wf hwf _,
+      Or.inl (runAbort_safe hwf h0 _ (safe_take (startFail_safe hn.1) k))⟩
+  | true =>
+    simp only [Bool.not_true, Bool.false_eq_true, if_false]
+    cases hc : sv.commit with
+    | true =>
+      simp only [if_true]
+      exact atomic_prefix (chunks := sv.chunks) (fd := sv.fd) hwf h0 hn k
+    | false =>
+      simp only [Bool.false_eq_true, if_false]
+      have := abort_prefix (chunks := sv.chunks) (fd := sv.fd) hwf h0 hn k
+      exact ⟨this.1, Or.inl this.2⟩
 
 theorem saves_settled (dest : Path) (svs : List Save) :
     ∀ (s₀ : FS) (old : Option Content), WF s₀ → Settled s₀ dest old →
